@@ -74,7 +74,7 @@ type tilereaderTR struct {
 	served      []tilereaderServed
 }
 
-func (tr *tilereaderTR) Height() int { return 8 }
+func (tr *tilereaderTR) Height() int                     { return 8 }
 func (tr *tilereaderTR) SaveTiles([]tlog.Tile, [][]byte) {}
 func (tr *tilereaderTR) ReadTiles(tiles []tlog.Tile) ([][]byte, error) {
 	out := make([][]byte, len(tiles))
